@@ -375,10 +375,10 @@ fn main() {
         rep.add_all(rs);
         rep.finish(0);
     }
-    let n = args.tier.pick(1500usize, 60_000usize);
+    let n = args.tier.pick(1200usize, 25_000usize);
     let (seed, tier) = (args.seed, args.tier);
     let mut rs = run_cases(SETUP_NAMES.len(), args.threads, |i| with_setup!(SETUP_NAMES[i], directed,));
     rs.extend(run_cases(n, args.threads, |i| with_setup!(SETUP_NAMES[i % SETUP_NAMES.len()], case, seed, i, tier)));
     rep.add_all(rs);
-    rep.finish(args.tier.pick(600, 20_000));
+    rep.finish(args.tier.pick(400, 8_000));
 }
